@@ -461,7 +461,8 @@ def doNtcg (n m p fuel fuel2 : ℕ) (imp : Bool) (parts : List String) : String 
         if imp && r.2 then
           let h := Cobyqa.Ntcg.handover P r.1
           let fin := runNiPasses P R fuel2 (Array.ofFn h.step) (Array.ofFn h.grad) (Array.ofFn h.free) h.reduct
-          if Cobyqa.Ntcg.violation P fin.step > Cobyqa.Ntcg.violation P h.step then h.step else fin.step
+          let finS := Cobyqa.Tcg.rescale R P.delta fin.step
+          if Cobyqa.Ntcg.violation P finS > Cobyqa.Ntcg.violation P h.step then h.step else finS
         else r.1.step
       (if r.2 then "ok1 " else "ok0 ") ++ " ".intercalate ((listFin n).map fun i => showRat (st i))
     | _, _, _, _, _, _, _ => "bad-op"
